@@ -392,6 +392,10 @@ pub(crate) fn add_set_hash<W, R, T>(
             // note that since order is important to the default hasher, we'll just xor them together
             let mut ret = 0u64;
             for (hash, bucket) in set0.inner.iter() {
+                // buckets emptied by remove/discard stay in the table; they are not part of the value
+                if bucket.is_empty() {
+                    continue;
+                }
                 let v = hash.wrapping_add(bucket.len() as u64);
                 ret ^= v;
             }
